@@ -292,7 +292,18 @@ class Bits:
             raise Top("ordering of two non-constants")
         aty = term_ty(a)
         if is_signed(aty or ""):
-            raise Top("signed ordering")
+            # only the sign test is bit-affine:  x < 0  <=>  sign bit set ;  x >= 0  <=>  sign bit clear
+            sv = b[1] - (1 << INT_BITS[aty]) if b[1] >> (INT_BITS[aty] - 1) else b[1]
+            neg = None
+            if (op, sv) in (("Lt", 0), ("Le", -1)):
+                neg = True
+            elif (op, sv) in (("Ge", 0), ("Gt", -1)):
+                neg = False
+            if neg is None:
+                raise Top("signed ordering")
+            sign = self.rows(a)[-1]
+            self.add_eq(sign ^ (ONE if (neg == bool(truth)) else 0))
+            return
         ra = self.rows(a)
         w = len(ra)
         cv = b[1]
